@@ -422,28 +422,60 @@ def judge_complex(ctx, got, a, b, cf, cdf, mech, what):
         return cf(complex(v[0], v[1]), complex(v[2], v[3])).imag
     gre = [fa.real, -fa.imag, fb.real, -fb.imag]
     gim = [fa.imag, fa.real, fb.imag, fb.real]
-    for part, g, f, nm in ((got.real, gre, fre, 're'), (got.imag, gim, fim, 'im')):
+
+    # which inputs take part is a matter of structure, not of the numbers: an observable part whose central value happens to be
+    # exactly zero still multiplies its partner (its configurations belong to the union, its partner's replica means enter), while a
+    # part that IS the number zero (the imaginary part of a real operand) contributes no term.  Structural derivatives: the same
+    # derivative formula at a point where every observable part is non-zero.
+    def generic(p):
+        re, im = p
+        return complex((re.value or 1.234) if is_obs(re) else re, (im.value or 0.789) if is_obs(im) else im)
+    try:
+        sa, sb = cdf(generic(pa), generic(pb))
+        sre = [sa.real, -sa.imag, sb.real, -sb.imag]
+        sim = [sa.imag, sa.real, sb.imag, sb.real]
+    except (ZeroDivisionError, ValueError, OverflowError):
+        sre, sim = gre, gim
+    for part, g, f, nm, gs in ((got.real, gre, fre, 're', sre), (got.imag, gim, fim, 'im', sim)):
         if is_obs(part):
             # an input whose derivative vanishes identically (e.g. the imaginary part in the real
             # part of a sum) does not take part: the operation acts component-wise
-            keep = [k for k in range(4) if g[k] != 0 or not is_obs(ins[k])]
+            keep0 = [k for k in range(4) if gs[k] != 0 or not is_obs(ins[k])]
             vals0 = [x.value if is_obs(x) else x for x in ins]
 
-            def fk(v, _keep=keep, _f=f, _v0=vals0):
-                full = list(_v0)
-                for kk, vv in zip(_keep, v):
-                    full[kk] = vv
-                return _f(full)
-            t = ctx.trial()
-            judge_real(t, part, [ins[k] for k in keep], [g[k] for k in keep], fk, mech + ':' + nm, what)
-            if t.violations and len(keep) < 4:
-                # the library may also let the zero-derivative parts take part (division is coded as
-                # (re*re' + im*im')/|z'|^2 even for a real divisor): equally admissible
-                t2 = ctx.trial()
-                judge_real(t2, part, ins, g, f, mech + ':' + nm, what)
-                if not t2.violations:
-                    t = t2
-                    ctx.count('L2c_zero_derivative_parts_take_part')
+            def trial_with(keep):
+                def fk(v, _keep=keep, _f=f, _v0=vals0):
+                    full = list(_v0)
+                    for kk, vv in zip(_keep, v):
+                        full[kk] = vv
+                    return _f(full)
+                tt = ctx.trial()
+                judge_real(tt, part, [ins[k] for k in keep], [g[k] for k in keep], fk, mech + ':' + nm, what)
+                return tt
+            t = trial_with(keep0)
+            if t.violations:
+                # observable inputs whose derivative is zero at this point contribute nothing to value and fluctuations; whether the
+                # library lets them take part (division is coded as (re*re' + im*im')/|z'|^2 even for a real divisor; 0.0 * b is an
+                # observable on b's configurations with zero fluctuations) only shows in the union of configurations and in the
+                # replica means: every subset of them is admissible
+                zero = [k for k in range(4) if is_obs(ins[k]) and g[k] == 0]
+                base = [k for k in range(4) if k not in zero]
+                import itertools
+                done = False
+                for r_ in range(len(zero) + 1):
+                    for sub in itertools.combinations(zero, r_):
+                        keep = sorted(base + list(sub))
+                        if keep == keep0:
+                            continue
+                        t2 = trial_with(keep)
+                        ctx.evaluations -= 0
+                        if not t2.violations:
+                            t = t2
+                            ctx.count('L2c_zero_derivative_parts_take_part')
+                            done = True
+                            break
+                    if done:
+                        break
             ctx.absorb(t)
         else:
             # a plain number is acceptable only when no observable contributes to this part
@@ -483,7 +515,31 @@ class PartFactory:
     def sdom(self):
         return (0.5, 3.0) if self.rng.random() < 0.5 else (-3.0, -0.5)
 
-    def cobs(self):
+    def zero_mean(self):
+        """an observable whose central value is exactly 0.0 while its fluctuations are not (o - <o>)"""
+        o = self.obs(self.sdom())
+        z = o - o.value
+        return z if z.value == 0.0 else o
+
+    def cobs(self, degenerate=True):
+        # degenerate but legitimate complex operands: a part with central value exactly zero (and non-zero fluctuations), a part that
+        # is a plain number, a complex observable built from a real one only
+        u = self.rng.random() if degenerate else 1.0
+        if u < 0.12:
+            CTX.count('L2c_operand_with_zero_mean_part')
+            return PE.CObs(self.obs(self.sdom()), self.zero_mean())
+        if u < 0.20:
+            CTX.count('L2c_operand_with_zero_mean_part')
+            return PE.CObs(self.zero_mean(), self.obs(self.sdom()))
+        if u < 0.30:
+            CTX.count('L2c_operand_with_number_part')
+            return PE.CObs(self.obs(self.sdom()), float(self.rng.uniform(0.5, 2.0)) * float(self.rng.choice([-1, 1])))
+        if u < 0.38:
+            CTX.count('L2c_operand_with_number_part')
+            return PE.CObs(float(self.rng.uniform(0.5, 2.0)) * float(self.rng.choice([-1, 1])), self.obs(self.sdom()))
+        if u < 0.44:
+            CTX.count('L2c_operand_with_number_part')
+            return PE.CObs(self.obs(self.sdom()))
         return PE.CObs(self.obs(self.sdom()), self.obs(self.sdom()))
 
 
@@ -545,6 +601,34 @@ def case_binary_real(ctx, rng, tier, op, partner, relation):
     ctx.cell('L2', op, partner, relation)
     judge_real(ctx, got, ins, grads, ff, 'L2:%s:%s' % (op, partner.split(':')[0] if partner != 'Obs' else 'Obs'), '%s %s %s' % (op, partner, relation))
     ctx.sample({'op': op, 'partner': partner, 'relation': relation, 'chains': [list(x.names) for x in ins]})
+
+
+def case_zero_mean(ctx, rng, tier, op):
+    """An operand whose central value is exactly 0.0 with non-zero fluctuations (a difference from its mean, a topological charge):
+    shortcuts that look at the value only (`if x == 0`, float(x) != 0) drop its fluctuations."""
+    pyop, f, df = BINOPS[op]
+    rel = str(rng.choice(['identical', 'nested', 'overlapping', 'second_ensemble', 'cov_one']))
+    a, b = make_pair(rng, (0.5, 2.0), (0.5, 2.0), rel, tier)
+    which = str(rng.choice(['left', 'right', 'both'])) if op in ('+', '-', '*') else 'left'
+    if which in ('left', 'both'):
+        a = a - a.value
+    if which in ('right', 'both'):
+        b = b - b.value
+    if (which != 'right' and a.value != 0.0) or (which != 'left' and b.value != 0.0):
+        raise Skip()
+    partner = str(rng.choice(['Obs', 'Obs', 'number']))
+    ctx.count('L2_applications')
+    ctx.count('L2_zero_mean_operands')
+    ctx.cell('L2', 'zero-mean', op, which, partner)
+    if partner == 'number' and which != 'both':
+        y = float(rng.uniform(0.5, 3.0)) * float(rng.choice([-1, 1]))
+        if which == 'left':
+            got, ins, grads, ff = pyop(a, y), [a], [df(0.0, y)[0]], (lambda v: f(v[0], y))
+        else:
+            got, ins, grads, ff = pyop(y, b), [b], [df(y, 0.0)[1]], (lambda v: f(y, v[0]))
+    else:
+        got, ins, grads, ff = pyop(a, b), [a, b], list(df(a.value, b.value)), (lambda v: f(v[0], v[1]))
+    judge_real(ctx, got, ins, grads, ff, 'L2:%s:zero-mean' % op, '%s zero-mean %s %s %s' % (op, which, partner, rel))
 
 
 def case_same_object(ctx, rng, tier, op):
@@ -662,6 +746,33 @@ def case_binary_complex(ctx, rng, tier, op, combo):
     ctx.sample({'op': op, 'combo': combo, 'layout_class': pf.klass})
 
 
+def case_complex_degenerate(ctx, rng, tier, op):
+    """Products and quotients that go through the mixed-type branches (a part that is a plain number) while a part of the other
+    operand is an observable with central value exactly zero: both degeneracies together, in both operand orders."""
+    pyop, cf, cdf = CBINOPS[op]
+    pf = PartFactory(rng, tier)
+    num = float(rng.uniform(0.5, 2.0)) * float(rng.choice([-1, 1]))
+    o1 = pf.obs(pf.sdom())
+    mixed = [PE.CObs(o1, num), PE.CObs(num, o1), PE.CObs(o1), o1 + complex(0.0, num), complex(num, -num), o1][int(rng.integers(0, 6))]
+    zm = pf.zero_mean()
+    other = pf.obs(pf.sdom())
+    if zm.value != 0.0:
+        raise Skip()
+    which = int(rng.integers(0, 4))
+    degenerate = [PE.CObs(other, zm), PE.CObs(zm, other), PE.CObs(num * 0.5, zm), PE.CObs(zm, num * 0.5)][which]
+    order = str(rng.choice(['mixed-left', 'mixed-right']))
+    a, b = (mixed, degenerate) if order == 'mixed-left' else (degenerate, mixed)
+    if op == '/':
+        zb = cval(parts(b))
+        if abs(zb) < 0.2:
+            raise Skip()
+    got = pyop(a, b)
+    ctx.count('L2_applications')
+    ctx.count('L2c_degenerate_pairs')
+    ctx.cell('L2c-degenerate', op, order, which)
+    judge_complex(ctx, got, a, b, cf, cdf, 'L2c:%s:degenerate' % op, '%s %s zero-mean part %d' % (op, order, which))
+
+
 def case_pow_complex(ctx, rng, tier, combo):
     """Obs ** complex and complex ** Obs (quantifier: ** with complex operands in either position)."""
     o, _ = make_operand(rng, (0.5, 3.0), tier)
@@ -677,7 +788,7 @@ def case_pow_complex(ctx, rng, tier, combo):
 
 
 def case_cobs_unary(ctx, rng, tier):
-    z = PartFactory(rng, tier).cobs()
+    z = PartFactory(rng, tier).cobs(degenerate=False)
     which = str(rng.choice(['neg', 'conj', 'abs']))
     ctx.count('L2_applications')
     ctx.cell('L2c', which)
@@ -1062,11 +1173,15 @@ def plan(tier):
         for pos in ('left', 'right'):
             p.append(('arr:%s:%s' % (op, pos), 3 * m))
         p.append(('same:%s' % op, 3 * m))
+        if op != '**':
+            p.append(('zero:%s' % op, 4 * m))
         p.append(('scaled:%s' % op, 4 * m))
         p.append(('special:%s' % op, 2 * m))
     for op in CBINOPS:
         for combo in COMPLEX_COMBOS:
             p.append(('cbin:%s:%s' % (op, combo), 3 * m))
+    for op in ('*', '/', '+', '-'):
+        p.append(('cdeg:%s' % op, (8 if op in '*/' else 3) * m))
     p.append(('cpow:Obs.complex', 4 * m))
     p.append(('cpow:complex.Obs', 4 * m))
     p.append(('cun', 8 * m))
@@ -1131,6 +1246,10 @@ def run_case(ctx, kind, idx, rng):
         case_binary_array(ctx, rng, tier, k[1], k[2])
     elif k[0] == 'same':
         case_same_object(ctx, rng, tier, k[1])
+    elif k[0] == 'zero':
+        case_zero_mean(ctx, rng, tier, k[1])
+    elif k[0] == 'cdeg':
+        case_complex_degenerate(ctx, rng, tier, k[1])
     elif k[0] == 'scaled':
         case_scaled(ctx, rng, tier, k[1])
     elif k[0] == 'special':
